@@ -211,7 +211,13 @@ fn check(c: &Case) -> CheckResult {
     let got = guard(|| run_analysis(ts, &b, c.analysis, c.tua, limit, blocking, c.wrap))
         .map_err(|e| format!("{} panicked: {} (limit {})", c.analysis.name(), e, limit))?;
     let got = Res::from(got);
-    if got != exp.res {
+    // Ok values must be identical; Err iff Err (the error's payload is pinned by C08, not claimed here)
+    let same = match (&got, &exp.res) {
+        (Res::Ok(a), Res::Ok(b)) => a == b,
+        (Res::Ok(_), _) | (_, Res::Ok(_)) => false,
+        _ => true,
+    };
+    if !same {
         return Err(format!(
             "{} returned {:?} but naive evaluation of its equations (L = {:?}, every offset in [0,L), limit {}) gives {:?} (argmax offset {})",
             c.analysis.name(),
